@@ -47,7 +47,7 @@ ASSUMPTIONS = [
 ]
 PROBES = ["overwrite_longer_then_shorter", "overwrite_other_kind", "txt_single_column", "txt_single_row", "txt_1x1", "txt_default_format",
           "net2d_empty", "net2d_no_header", "net3d_no_domain", "net3d_with_domain", "io_error_on_open", "io_error_on_write", "read_after_failed_write_skipped",
-          "three_paths", "polygon_6_vertices", "txt_integer_column", "txt_integer_first_then_float", "net2d_constrained_before_write"]
+          "three_paths", "polygon_6_vertices", "txt_integer_column", "txt_integer_first_then_float", "net2d_constrained_before_write", "net3d_georeferenced_coordinates"]
 
 
 # --------------------------------------------------------------------------------------
@@ -76,9 +76,12 @@ def canon2d(pts, edges):
     return sorted(out)
 
 
-def gen_net3d(ch):
+def gen_net3d(ch, geo=False):
+    """``geo``: metre-sized fractures in georeferenced coordinates (easting ~4e5, northing ~6.7e6): neighbouring
+    vertices differ by a relative 1e-7, far above the resolution of the csv format, far below sloppy relative tolerances."""
     n = ch.rng(1, 4)
     fr = []
+    origin = np.array([4.0e5, 6.7e6, 100.0]) if geo else np.zeros(3)
     for _ in range(n):
         k = ch.rng(3, 6)
         # convex polygon: points on an ellipse at strictly increasing angles
@@ -93,7 +96,7 @@ def gen_net3d(ch):
             u, v = np.array([1.0, 0.0, 0.0]), np.array([0.0, 0.6, 0.8])
         elif rot == 3:
             u, v = np.array([0.6, 0.8, 0.0]), np.array([0.0, 0.0, 1.0])
-        c = np.array([ch.unit() * 4, ch.unit() * 4, ch.unit() * 4])
+        c = origin + np.array([ch.unit() * 4, ch.unit() * 4, ch.unit() * 4])
         P = np.array([c + a * np.cos(t) * u + b * np.sin(t) * v for t in ang]).T
         fr.append(P)
     return fr
@@ -205,10 +208,14 @@ def run_history_c47(ch, tr: Trace) -> None:
 
         def op_write_3d():
             p = ch.choice(paths)
-            polys = gen_net3d(ch)
+            geo = ch.flag(1, 4)
+            polys = gen_net3d(ch, geo)
             with_domain = ch.flag()
             fracs = [pp.PlaneFracture(P, check_convexity=False) for P in polys]  # sympy-based convexity check is slow and not part of the property
             box = {"xmin": -2.0, "xmax": 7.0, "ymin": -2.0, "ymax": 7.0, "zmin": -2.0, "zmax": 7.5}
+            if geo:
+                box = {"xmin": 4.0e5 - 2.0, "xmax": 4.0e5 + 7.0, "ymin": 6.7e6 - 2.0, "ymax": 6.7e6 + 7.0, "zmin": 98.0, "zmax": 107.5}
+                tr.probe("net3d_georeferenced_coordinates")
             dom = pp.Domain(box)
             net = pp.create_fracture_network(fracs, dom)
             payload = (sorted(canon_poly(f.pts) for f in net.fractures), box if with_domain else None)
